@@ -34,6 +34,17 @@ var $flatten64 = x => {
     return x.$high * 4294967296 + x.$low;
 };
 
+// $flatten64f32 converts a 64-bit integer to single precision with a single rounding. Rounding to double precision
+// first and to single precision afterwards may round twice; when the value does not fit a double exactly the low word is
+// rounded to odd at bit 11 (which a double holds exactly), leaving the one round-to-nearest-even to $fround.
+var $flatten64f32 = x => {
+    var hi = x.$high, lo = x.$low;
+    if ((hi >= 2097152 || hi < -2097152) && (lo & 2047) !== 0) {
+        lo = ((lo | 2048) & -2048) >>> 0;
+    }
+    return $fround(hi * 4294967296 + lo);
+};
+
 var $shiftLeft64 = (x, y) => {
     if (y === 0) {
         return x;
